@@ -25,9 +25,14 @@ type Case struct {
 	Prefix  int    `json:"prefix_blocks"` // cleanly committed blocks before the step under test (-1: crash during the very first start)
 	Kind    string `json:"step_kind"`     // txs | empty | reuse
 	K       []int  `json:"crash_after_writes"`
+	// DAStart is the configured da.start_height of every process of the scenario (0 = option not set; a chain deployed
+	// on an existing DA chain sets it, and the node then adjusts its initial state at start-up)
+	DAStart uint64 `json:"da_start_height"`
 }
 
-func (c Case) key() string { return fmt.Sprintf("i%d p%d %s %v", c.Initial, c.Prefix, c.Kind, c.K) }
+func (c Case) key() string {
+	return fmt.Sprintf("i%d p%d s%d %s %v", c.Initial, c.Prefix, c.DAStart, c.Kind, c.K)
+}
 
 type proc struct {
 	n   *world.Node
@@ -57,7 +62,7 @@ func (s *scenario) start(crashAfter int) (*proc, error) {
 	if crashAfter >= 0 {
 		dsp.CrashAfter(crashAfter)
 	}
-	opts := world.NodeOpts{Aggregator: true, InitialHeight: s.c.Initial}
+	opts := world.NodeOpts{Aggregator: true, InitialHeight: s.c.Initial, DAStartHeight: s.c.DAStart}
 	n, err := world.NewNode(s.ctx, opts, s.keys, dsp, s.exec, s.seq, s.da, nil)
 	if err != nil {
 		s.logs = append(s.logs, dsp.Log())
@@ -302,7 +307,7 @@ func runCase(r *vk.Run, c Case) (crashedAt []bool) {
 // Run is the check entry point.
 func Run(r *vk.Run) {
 	world.Silence()
-	r.Rule = "exhaustive enumeration: initial height {1,5} x cleanly committed prefix {first start,0..3 blocks} x step kind {txs, empty, reuse of a pending block} x crash after write k of the step (k = 0..W, W found by running until the step completes) x recovery (restart + step) crashed after write k2 (depth 2; depth 3 in thorough), then a clean restart, four clean steps and the chain oracle W1; plus kill-point enumeration of the cache writer (separate clause). non-trivial = at least one crash index strictly inside a step; distinct by (initial, prefix, kind, k...)"
+	r.Rule = "exhaustive enumeration: initial height {1,5} x da.start_height {unset, 1, 5e9} x cleanly committed prefix {first start,0..3 blocks} x step kind {txs, empty, reuse of a pending block} x crash after write k of the step (k = 0..W, W found by running until the step completes) x recovery (restart + step) crashed after write k2 (depth 2; depth 3 in thorough), then a clean restart, four clean steps and the chain oracle W1; plus kill-point enumeration of the cache writer (separate clause): killed at its n-th write/pwrite64 call, with and without an older generation of files, and - when the machine has a second file system - with TMPDIR on another file system than the node home, there also at its n-th copy_file_range / sendfile call. non-trivial = at least one crash index strictly inside a step; distinct by (initial, prefix, kind, k...)"
 	r.Assume("MemDS double: a Put/Delete/Batch.Commit is atomic and durable once it returns; a crash loses exactly the writes not yet issued (process kill, not power loss)")
 	r.Assume("execution and sequencing layers are external processes that survive the node's crash (doubles keep their state)")
 	depth := 2
@@ -313,6 +318,7 @@ func Run(r *vk.Run) {
 		initial uint64
 		prefix  int
 		kind    string
+		daStart uint64
 	}
 	var tuples []tuple
 	inits := []uint64{1, 5}
@@ -328,7 +334,10 @@ func Run(r *vk.Run) {
 				kinds = []string{"txs"}
 			}
 			for _, kind := range kinds {
-				tuples = append(tuples, tuple{initial, prefix, kind})
+				// da.start_height: not set, 1, beyond 2^32
+				for _, daStart := range []uint64{0, 1, 5_000_000_000} {
+					tuples = append(tuples, tuple{initial, prefix, kind, daStart})
+				}
 			}
 		}
 	}
@@ -365,7 +374,7 @@ func Run(r *vk.Run) {
 		go func() {
 			defer wg.Done()
 			for t := range ch {
-				c := Case{Initial: t.initial, Prefix: t.prefix, Kind: t.kind}
+				c := Case{Initial: t.initial, Prefix: t.prefix, Kind: t.kind, DAStart: t.daStart}
 				r.Guard(c, func() { enum(c, 0) })
 			}
 		}()
